@@ -636,6 +636,16 @@ def targeted(rng, n):
                     {"target": 0, "mutate": "remove_eps_all"}, {"target": 0, "op": "accepts", "arg": 3},
                     {"target": 0, "op": "accepts", "arg": 1}, {"target": 0, "op": "remove_epsilon_transitions", "arg": 0},
                     {"target": 0, "op": "get_accepted_words", "arg": 0}])
+        # an automaton without epsilon moves converted again: the second result edited, the first one asked
+        out.append([{"target": 0, "op": "remove_epsilon_transitions", "arg": 0},
+                    {"target": "R0", "op": "remove_epsilon_transitions", "arg": 0},
+                    {"target": "R1", "mutate": "add_transition_new"}, {"target": "R0", "op": "accepts", "arg": 1},
+                    {"target": "R0", "op": "accepts", "arg": 3}, {"target": "R0", "op": "get_number_transitions", "arg": 0},
+                    {"target": "R0", "mutate": "add_final_all"}, {"target": "R1", "op": "accepts", "arg": 0},
+                    {"target": "R1", "op": "accepts", "arg": 2}, {"target": "R0", "op": "copy", "arg": 0},
+                    {"target": "R2", "mutate": "add_transition_new"}, {"target": "R0", "op": "accepts", "arg": 1},
+                    {"target": "R0", "op": "reverse", "arg": 0}, {"target": "R3", "mutate": "add_transition_new"},
+                    {"target": "R0", "op": "accepts", "arg": 1}])
         # the dictionary form of an automaton and of a PDA: its inner containers edited, the source asked again
         out.append([{"target": 12, "op": "to_dict", "arg": 0}, {"target": "R0", "mutate": "edit_inner"},
                     {"target": 12, "op": "accepts", "arg": 1}, {"target": 12, "op": "get_number_transitions", "arg": 0},
